@@ -166,7 +166,7 @@ def split_trials(impl_line):
 
 
 # ------------------------------------------------------------------ log -> model history
-MAX_VARIANTS = 24
+MAX_VARIANTS = 144
 
 
 def build_histories(sc, log, sweeps=()):
